@@ -2161,7 +2161,101 @@ def _propagate_defaults_and_verify_attributes(ir):
         add_fn=_add_missing_enum_case_attribute_on_enum_value,
     )
 
-    return []
+    return _verify_generated_names_are_distinct(ir)
+
+
+def _check_generated_name(kind, cpp_name, name, seen, source_file_name, errors):
+    """Adds an error if `cpp_name` was already generated for a name in `seen`."""
+    if cpp_name not in seen:
+        seen[cpp_name] = name
+        return
+    errors.append(
+        [
+            error.error(
+                source_file_name,
+                name.source_location,
+                "{} '{}' and '{}' would both be named '{}' in the generated C++ "
+                "code.".format(
+                    kind, seen[cpp_name].name.text, name.name.text, cpp_name
+                ),
+            ),
+            error.note(
+                source_file_name,
+                seen[cpp_name].source_location,
+                "'{}' defined here.".format(seen[cpp_name].name.text),
+            ),
+        ]
+    )
+
+
+def _verify_generated_field_names_are_distinct(structure, source_file_name, errors):
+    """Checks the helper class names generated for the fields of `structure`."""
+    virtual_view_names = {}
+    validator_names = {}
+    for field in structure.field:
+        name = field.name.canonical_name.object_path[-1]
+        if name.startswith("$") or field.name.is_anonymous:
+            continue
+        camel_name = name_conversion.snake_to_camel(name)
+        if ir_util.field_is_virtual(field):
+            if field.write_method.which_method != "alias":
+                _check_generated_name(
+                    "Virtual fields",
+                    "EmbossReservedVirtual{}View".format(camel_name),
+                    field.name,
+                    virtual_view_names,
+                    source_file_name,
+                    errors,
+                )
+        elif ir_util.get_attribute(field.attribute, "requires"):
+            _check_generated_name(
+                "Fields with [requires]",
+                "EmbossReservedValidatorFor{}".format(camel_name),
+                field.name,
+                validator_names,
+                source_file_name,
+                errors,
+            )
+
+
+def _verify_generated_enum_value_names_are_distinct(enum, source_file_name, errors):
+    """Checks the enumerator names generated for the values of `enum`."""
+    enumerator_names = {}
+    for value in enum.value:
+        for cpp_name in _get_enum_value_names(value):
+            _check_generated_name(
+                "Enum values",
+                cpp_name,
+                value.name,
+                enumerator_names,
+                source_file_name,
+                errors,
+            )
+
+
+def _verify_generated_names_are_distinct(ir):
+    """Checks that distinct Emboss names do not map to the same C++ identifier.
+
+    `snake_to_camel` is not injective (`x_1` and `x1` both become `X1`, `A_1B`
+    and `A1B` both become `A1b`, and doubled or trailing underscores vanish), so
+    two fields of one structure can ask for the same helper class name, and two
+    values of one enum for the same enumerator name.  The resulting header would
+    not compile; report the clash as an error instead.
+    """
+    errors = []
+    traverse_ir.fast_traverse_ir_top_down(
+        ir,
+        [ir_data.Structure],
+        _verify_generated_field_names_are_distinct,
+        parameters={"errors": errors},
+    )
+    traverse_ir.fast_traverse_ir_top_down(
+        ir,
+        [ir_data.Enum],
+        _verify_generated_enum_value_names_are_distinct,
+        parameters={"errors": errors},
+    )
+    return errors
 
 
 def generate_header(ir, config=Config()):
